@@ -31,6 +31,11 @@ def _base(op, t, **kw):
          "rel": False, "act": None, "shape_decl": None, "tshape": None, "byrank": False, "re": None}
     c.update(kw)
     c["act_explicit"] = c["act"] is not None
+    if c.get("fmtU") and c["kind"] == "tensor":
+        if c.get("fmts") is None:
+            c["fmts"] = ["C"] * c["k"] + ["U"] + ["C"] * c["d"]
+        if c.get("re"):                       # both halves of a split rank inherit its format
+            c["re"] = dict(c["re"], fmtU=True)
     return c
 
 
@@ -54,7 +59,7 @@ def _small_scope(tier):
                     i += 1
                     yield _base("uniform", t, step=step, pre=pre, post=post, act=act, rel=bool(i & 1))
     # --- non-uniform: every non-empty ascending boundary list inside 0..n, one list with a boundary beyond
-    splitss = list(_subsets(list(range(0, n + 1)))) + [[1, n + 2], [n + 3], [-2, 2]]
+    splitss = list(_subsets(list(range(0, n + 1)))) + [[1, n + 2], [n + 3], [-2, 2], []]
     fibs3 = list(H.all_leaf_fibers(3, [0, 5]))
     splitss3 = list(_subsets(list(range(0, 4)))) + [[1, 5], [6], [-2, 2]]
     for t in fibs:
@@ -74,10 +79,10 @@ def _small_scope(tier):
     bfibs = list(H.all_leaf_fibers(4, [0, 5]))
     for t in fibs:
         for bf in bfibs:
-            for pre, post in ((0, 0), (1, 1)):
-                i += 1
-                yield _base("nonuniform", t, splits=[c for c, _ in bf], sfib=bf, sfd=1, pre=pre, post=post,
-                            rel=bool(i & 1))
+            i += 1
+            pre, post = ((0, 0), (1, 1), (0, 2))[i % 3]
+            yield _base("nonuniform", t, splits=[c for c, _ in bf], sfib=bf, sfd=1, pre=pre, post=post,
+                        rel=bool(i & 1))
     bsubs = [None, [], [[0, 0]], [[0, 5]]]
     for combo in itertools.product(bsubs, repeat=3):
         bf = [[c + 1, sub] for c, sub in enumerate(combo) if sub is not None]
@@ -87,6 +92,93 @@ def _small_scope(tier):
             if t:
                 yield _base("nonuniform", t, splits=[c for c, _ in bf], sfib=bf, sfd=2, kind="tensor",
                             byrank=bool(i & 1))
+    # --- format "U" on the rank that is split (unowned fibers: their own rank attributes; tensors: setFormat,
+    #     declared and estimated extents, other ranks "C" or "U"), restricted active ranges, halos
+    for t in fibs:
+        for step in (1, 2, 3):
+            for pre, post in ((0, 0), (1, 1), (2, 0)):
+                for act in (None, [1, 3], [-1, n]):
+                    i += 1
+                    yield _base("uniform", t, step=step, pre=pre, post=post, act=act, rel=bool(i & 1), fmtU=True)
+        for step in (1, 2, 3):
+            for pre, post in ((0, 0), (1, 1)):
+                for act in (None, [1, 3]):
+                    i += 1
+                    yield _base("equal", t, step=step, pre=pre, post=post, act=act, rel=bool(i & 1), fmtU=True)
+        for sizes in ([], [1], [2, 1], [1, 1, 1]):
+            yield _base("unequal", t, sizes=sizes, fmtU=True)
+            yield _base("unequal", t, sizes=sizes, fmtU=True, post=1, act=[1, 3])
+        yield _base("truediv", t, n=2, fmtU=True)
+        yield _base("floordiv", t, n=2, fmtU=True, shape_decl=n + 2)
+        if t:
+            for tshape in (None, [n + 2]):
+                yield _base("uniform", t, step=2, pre=1, kind="tensor", tshape=tshape, fmtU=True)
+                yield _base("nonuniform", t, splits=[1, 3], post=1, kind="tensor", tshape=tshape, fmtU=True, byrank=True)
+                yield _base("equal", t, step=2, kind="tensor", tshape=tshape, fmtU=True)
+                yield _base("floordiv", t, n=2, kind="tensor", tshape=tshape, fmtU=True)
+                yield _base("uniform", t, step=2, kind="tensor", tshape=tshape, fmtU=True,
+                            re=dict(op="uniform", step=1))
+                yield _base("uniform", t, step=3, pre=1, rel=True, kind="tensor", tshape=tshape, fmtU=True,
+                            re=dict(op="equal", step=1))
+        yield _base("uniform", t, step=2, fmtU=True, re=dict(op="uniform", step=1))
+        yield _base("uniform", t, step=3, post=1, rel=True, fmtU=True, re=dict(op="equal", step=2))
+        yield _base("equal", t, step=2, fmtU=True, re=dict(op="nonuniform", splits=[0, 2]))
+    for t in fibs3:
+        for S in splitss3 + [[]]:
+            for pre, post in ((0, 0), (1, 1), (0, 2)):
+                for act in (None, [1, 3], [0, 5]):
+                    i += 1
+                    yield _base("nonuniform", t, splits=S, pre=pre, post=post, act=act, rel=bool(i & 1), fmtU=True)
+    # --- a fiber default that differs from the owning tensor's; values equal to 0 under a non-zero default
+    for t in H.all_leaf_fibers(4, [0, 7]):
+        if not t:
+            continue
+        for dflt, fdflt in ((7, 0), (0, 7)):
+            yield _base("uniform", t, step=2, post=1, kind="tensor", dflt=dflt, fdflt=fdflt)
+            yield _base("equal", t, step=1, kind="tensor", dflt=dflt, fdflt=fdflt)
+            yield _base("floordiv", t, n=2, kind="tensor", dflt=dflt, fdflt=fdflt)
+            yield _base("unequal", t, sizes=[1], kind="tensor", dflt=dflt, fdflt=fdflt, fmtU=True)
+    # --- float values and float defaults
+    for t in fibs:
+        for dflt in (0, 7):
+            tt = [[c, (7 if (v == 0 and dflt == 7) else v)] for c, v in t]
+            yield _base("uniform", tt, step=2, pre=1, dflt=dflt, vkind="float")
+            yield _base("equal", tt, step=2, dflt=dflt, vkind="float", rel=True)
+            yield _base("nonuniform", tt, splits=[1, 2], dflt=dflt, vkind="float", kind=("tensor" if tt else "free"))
+            yield _base("floordiv", tt, n=2, dflt=dflt, vkind="float", fmtU=True)
+    # --- the same object split, grown in place past its old extent, split again (the estimated extent moves)
+    for t in fibs:
+        if not t:
+            continue
+        tg = t[:-1] + [[t[-1][0] + 3, 5]]
+        for kind in ("free", "tensor"):
+            if kind == "tensor" and len(tg) < 2:
+                continue
+            yield _base("uniform", tg, step=2, post=1, kind=kind, grow=True)
+            yield _base("equal", tg, step=2, kind=kind, grow=True)
+            yield _base("truediv", tg, n=2, kind=kind, grow=True)
+            yield _base("floordiv", tg, n=2, kind=kind, grow=True, fmtU=(kind == "free"))
+    # --- multi-digit coordinates (9 / 10 / 100: numeric, not string order)
+    for t in fibs3:
+        tm = [[{0: 9, 1: 10, 2: 100}[c], v] for c, v in t]
+        yield _base("uniform", tm, step=10)
+        yield _base("uniform", tm, step=7, pre=2, post=3, rel=True)
+        yield _base("nonuniform", tm, splits=[9, 10, 100])
+        yield _base("nonuniform", tm, splits=[10, 99], sfib=[[10, 0], [99, 1]], sfd=1, pre=1)
+        yield _base("equal", tm, step=1, kind=("tensor" if tm else "free"))
+        yield _base("unequal", tm, sizes=[2])
+    # --- tuple coordinates from an earlier flatten (free fibers; position space, halo 0, absolute): the case tree
+    #     holds the order-preserving integer code a*W+b of the pair (a, b)
+    W = 3
+    for mask in range(1, 1 << 9):
+        t = [[c, 5] for c in range(9) if mask >> c & 1]
+        if len(t) > 5:
+            continue
+        yield _base("equal", t, step=1 + mask % 3, flat={"W": W})
+        yield _base("unequal", t, sizes=[[1], [2, 1], []][mask % 3], flat={"W": W})
+    for mask in (0b000010001, 0b101000110, 0b111111111):
+        t = [[c, 5] for c in range(9) if mask >> c & 1]
+        yield _base("equal", t, step=2, flat={"W": W}, kind="tensor")
     # --- equal / unequal in position space
     sizess = [[]] + [list(s) for r in (1, 2) for s in itertools.product((1, 2, 3), repeat=r)] + [[1, 1, 1]]
     for t in fibs:
@@ -208,36 +300,119 @@ def _random(seed, tier):
             c["byrank"] = rng.random() < 0.5
             if rng.random() < 0.5:
                 c["tshape"] = [rng.randrange(max(1, n - 2), n + 3) for _ in range(k + 1 + d)]
+        if rng.random() < 0.2:
+            c["fmtU"] = True
+            if c["kind"] == "tensor":
+                c["fmts"] = [rng.choice(["C", "U"]) for _ in range(k + 1 + d)]
+                c["fmts"][k] = "U"
+        if c["kind"] == "tensor" and rng.random() < 0.15:
+            c["fdflt"] = 7 - dflt
+        if rng.random() < 0.15:
+            c["vkind"] = "float"
+        if k == 0 and d == 0 and len(c["t"]) > 1 and rng.random() < 0.1:
+            c["grow"] = True
         if k == 0 and rng.random() < 0.25 and op not in ("truediv", "floordiv"):
             op2 = rng.choice(OPS[:4])
             re = {"op": op2, "pre": rng.choice([0, 0, 1]), "post": rng.choice([0, 0, 2]),
                   "rel": rng.random() < 0.2}
             re.update(_rand_params(rng, op2, n))
+            if c.get("fmtU") and c["kind"] == "tensor":
+                re["fmtU"] = True
             c["re"] = re
         yield c
 
 
 def gen(seed, tier):
-    yield from _small_scope(tier)
-    yield from _random(seed, tier)
+    for i, c in enumerate(_small_scope(tier)):
+        if i % 8 == 0:
+            c["twice"] = True          # state left behind / sharing with the operand / repeatability
+        yield c
+    for c in _random(seed, tier):
+        c["twice"] = True
+        yield c
 
 
 # ---------------------------------------------------------------------------------------
 # running the real code
 # ---------------------------------------------------------------------------------------
 
-def _build(case):
-    ft = H.ft()
+def _leafval(case, v):
+    """value kinds: ints, or the same numbers as floats (float default too)"""
+    return float(v) if case.get("vkind") == "float" else v
+
+
+def _mk(case, tree, depth, dflt, top_kw=None):
+    F = H.ft().Fiber
+    kw = top_kw or {}
+    if depth == 1:
+        return F([c for c, _ in tree], [_leafval(case, v) for _, v in tree], default=_leafval(case, dflt), **kw)
+    return F([c for c, _ in tree], [_mk(case, s, depth - 1, dflt) for _, s in tree],
+             default=_leafval(case, dflt), **kw)
+
+
+def _build(case, tree=None):
     depth = case["k"] + 1 + case["d"]
-    t, dflt = case["t"], case["dflt"]
+    t = case["t"] if tree is None else tree
+    # a fiber may carry a default of its own that differs from the owning tensor's
+    dflt = case["fdflt"] if (case["kind"] == "tensor" and case.get("fdflt") is not None) else case["dflt"]
     kw = {}
     if case.get("act_explicit") and case["kind"] == "free":
         kw["active_range"] = tuple(case["act"])
     if case.get("shape_decl") is not None:
         kw["shape"] = case["shape_decl"]
-    if depth == 1:
-        return ft.Fiber([c for c, _ in t], [v for _, v in t], default=dflt, **kw)
-    return ft.Fiber([c for c, _ in t], [H.build_fiber(s, depth - 1, dflt) for _, s in t], default=dflt, **kw)
+    if case.get("flat"):
+        # tuple coordinates from an earlier flatten: coordinate c of the (integer-encoded) case tree
+        # stands for the pair (c // W, c % W)
+        W = case["flat"]["W"]
+        outer = {}
+        for c, v in t:
+            outer.setdefault(c // W, []).append([c % W, v])
+        return _mk(case, [[a, sub] for a, sub in sorted(outer.items())], 2, dflt)
+    return _mk(case, t, depth, dflt, kw)
+
+
+def _enc(x, W):
+    """order-preserving integer code of a coordinate pair"""
+    if isinstance(x, (tuple, list)) and len(x) == 2 and all(isinstance(y, int) for y in x):
+        return x[0] * W + x[1]
+    return x
+
+
+def _enc_obs(o, W):
+    """encode every coordinate pair of an observation"""
+    def tree(t, lvl):
+        if isinstance(t, list):
+            return [[(_enc(c, W) if lvl < 2 else c), tree(p, lvl + 1)] for c, p in t]
+        return t
+    o["tree"] = tree(o["tree"], 0)
+    o["uact"] = [[_enc(a, W), _enc(b, W)] for a, b in o["uact"]]
+    o["lact"] = [[[_enc(a, W), _enc(b, W)] for a, b in u] for u in o["lact"]]
+    return o
+
+
+def _leaf_types(root, acc):
+    """types of the leaf values of a result"""
+    Fiber, Payload = H.ft().Fiber, H.ft().Payload
+    if isinstance(root, Fiber):
+        for p in root.payloads:
+            _leaf_types(p, acc)
+    elif isinstance(root, Payload):
+        acc.add((type(root.value).__name__, root.value))
+    else:
+        acc.add(("raw:" + type(root).__name__, None))
+    return acc
+
+
+def _objects(root, acc):
+    """ids of every Fiber / Payload / list object reachable from root"""
+    Fiber = H.ft().Fiber
+    acc[id(root)] = root
+    if isinstance(root, Fiber):
+        acc[id(root.coords)] = root.coords
+        acc[id(root.payloads)] = root.payloads
+        for p in root.payloads:
+            _objects(p, acc)
+    return acc
 
 
 def _call(obj, spec, depth, rankid):
@@ -313,34 +488,87 @@ def _observe(root, k, total_depth, re):
     return obs
 
 
+def _set_formats(case, obj, k, ids):
+    """format "U" on the rank that is split (and whatever the case says about the other ranks)"""
+    if case["kind"] == "tensor":
+        fmts = case.get("fmts") or ["C"] * len(ids)
+        for rid, fm in zip(ids, fmts):
+            obj.setFormat(rid, fm)
+    elif case.get("fmtU"):
+        for f in _fibers_at(obj, k):
+            f.getRankAttrs().setFormat("U")
+
+
 def run(case):
     ft = H.ft()
     k, d = case["k"], case["d"]
-    f = _build(case)
+    grow = bool(case.get("grow")) and len(case["t"]) > 0 and k == 0 and d == 0 and not case.get("flat")
+    f = _build(case, case["t"][:-1]) if grow else _build(case)
     obj, ids = f, None
+    if case.get("flat"):
+        f = f.flattenRanks() if case["kind"] == "free" else f
+        obj = f
     if case["kind"] == "tensor":
-        ids = [f"R{k + d - i}" for i in range(k + 1 + d)]
-        obj = ft.Tensor.fromFiber(rank_ids=ids, fiber=f, shape=case.get("tshape"), default=case["dflt"])
-        # owned fibers take their active range from the rank (declared or estimated rank shape)
-        seen = {tuple(x.getActive()) for x in _fibers_at(obj.getRoot(), k)}
-        case["act"] = list(seen.pop()) if len(seen) == 1 else None
-    elif not case.get("act_explicit"):
-        case["act"] = [0, case["shape_decl"]] if case.get("shape_decl") else None
+        nranks = 2 if case.get("flat") else k + 1 + d
+        ids = [f"R{nranks - 1 - i}" for i in range(nranks)]
+        obj = ft.Tensor.fromFiber(rank_ids=ids, fiber=f, shape=case.get("tshape"),
+                                  default=_leafval(case, case["dflt"]))
+        if case.get("flat"):
+            obj = obj.flattenRanks()
+            ids = obj.getRankIds()
+    if not case.get("flat"):
+        _set_formats(case, obj, k, ids)
     root0 = obj.getRoot() if case["kind"] == "tensor" else obj
-    if case["op"] == "truediv":
-        case["shape"] = root0.getShape(all_ranks=False)
     rankid = ids[k] if (ids and case.get("byrank")) else None
+    side = {}
     try:
+        if grow:
+            # the same object split, grown in place past its old extent, and split again
+            _call(obj, case, k, rankid)
+            c, v = case["t"][-1]
+            root0.append(c, _leafval(case, v))
+        if case["kind"] == "tensor":
+            # owned fibers take their active range from the rank (declared or estimated rank shape)
+            seen = {tuple(x.getActive()) for x in _fibers_at(root0, k)}
+            case["act"] = list(seen.pop()) if len(seen) == 1 else None
+        elif not case.get("act_explicit"):
+            case["act"] = [0, case["shape_decl"]] if case.get("shape_decl") else None
+        if case.get("flat"):
+            a, b = root0.getActive()
+            case["act"] = [_enc(a, case["flat"]["W"]), _enc(b, case["flat"]["W"])]
+        if case["op"] == "truediv":
+            case["shape"] = root0.getShape(all_ranks=False)
+        before = H.snapshot(root0) if case.get("twice") else None
         r = _call(obj, case, k, rankid)
         total = k + 2 + d
         if case.get("re"):
             r = _call(r, case["re"], 1, None)
             total += 1
         root = r.getRoot() if case["kind"] == "tensor" else r
-        case["impl"] = _observe(root, k, total, bool(case.get("re")))
+        obs = _observe(root, k, total, bool(case.get("re")))
+        if case.get("twice"):
+            # state left behind: the operands are untouched, nothing of the result is shared with them,
+            # and the same call on the same object gives the same result again
+            side["operand_unchanged"] = H.snapshot(root0) == before
+            mine = _objects(root0, {})
+            side["result_shares_nothing"] = not any(i in mine for i in _objects(root, {}))
+            r2 = _call(obj, case, k, rankid)
+            if case.get("re"):
+                r2 = _call(r2, case["re"], 1, None)
+            root2 = r2.getRoot() if case["kind"] == "tensor" else r2
+            side["second_call_same"] = _observe(root2, k, total, bool(case.get("re"))) == obs
+        if case.get("vkind") == "float":
+            # the stored values travel unchanged (a default delivered by a "U" rank is the rank's own object)
+            side["float_values_kept"] = all(ty == "float" for ty, v in _leaf_types(root, set())
+                                            if not (isinstance(ty, str) and ty != "float" and v == case["dflt"]))
+        if case.get("flat"):
+            obs = _enc_obs(obs, case["flat"]["W"])
+        case["impl"] = obs
     except Exception as e:              # a crash on a legal input is an observation
         case["impl"] = {"err": H.err_class(e)}
         case["implerr"] = H.err_class(e)
+    if side:
+        case["side"] = side
     return case
 
 
@@ -358,7 +586,9 @@ def nontrivial(case, verdict):
 
 
 def signature(case, verdict, failed):
-    """classification of a failing case (no open finding class is left for C08)"""
+    """classification of a failing case"""
+    if case.get("flat") and case["kind"] == "tensor" and case.get("implerr") == "ERR:TypeError":
+        return "tensor:split-of-flattened-rank:TypeError"
     return f"{case['op']}:k{case['k']}:{case['kind']}:{'re:' if case.get('re') else ''}{'/'.join(sorted(failed))}"
 
 
